@@ -1,95 +1,106 @@
 """C01 -- mastering fidelity: what was put in is what a reopened image shows.  DESIGN.md section 8.1."""
-from harness import common, syslevel
-from harness.common import z
+from harness import common, syslevel, sysrun
 
 MODULE = 'C01'
-THEOREMS = []
+THEOREMS = ['C01_spec_invariant', 'C01_refused_changes_nothing', 'C01_add_fp_exact', 'C01_nonvacuous']
 
 
-def run_history(cfg, ops, sizes):
-    """Execute on the implementation: per-op outcomes, then write + reopen + API view."""
-    iso = cfg.new()
-    outs = []
-    for op in ops:
-        outs.append(syslevel.apply_op(iso, op, sizes))
-    return iso, outs
-
-
-def make_content_key(ops, sizes, catalog_paths):
-    table = {}
-    for op in ops:
-        if op['k'] == 'add_fp':
-            c = syslevel.blob_content(op['blob'], op['size'])
-            table.setdefault(c, op['blob'] if op['size'] > 0 else 0)
-
-    def key(data, path):
-        if path in catalog_paths:
-            return -1
-        if data == b'':
-            return 0
-        return table.get(data, -2)
-    return key
-
-
-def blob_table(ops):
-    return '[' + '; '.join('(%s, 0)' % z(op['blob']) for op in ops if op['k'] == 'add_fp' and op['size'] == 0) + ']'
-
-
-def render_case(cfg, ops, outs, view, names):
-    code = {'ok': 0, 'refused': 1}
-    return ('{| y_ops := [%s]; y_outcomes := [%s]; y_view := %s; y_tbl := %s; y_start := empty_fs |}'
-            % ('; '.join(syslevel.coq_op(op, names, cfg) for op in ops),
-               '; '.join(str(code.get(o, 2)) for o in outs),
-               syslevel.coq_view(view, names), blob_table(ops)))
+def system_check(ctx, pid, n_hist, gen_kwargs, reopen_prob=0.0, max_gen=1, nops=(5, 30), ncfg=24, max_shrink=12,
+                 extra_oracle=None, label='history'):
+    """Generic engine: histories -> implementation -> (write, reopen, API view) -> Coq FsSpec comparison."""
+    rng = ctx.rng
+    cfgs = syslevel.covering_configs(rng, ncfg)
+    cases, metas = [], []
+    nfail_shrunk = 0
+    for i in range(n_hist):
+        cfg = cfgs[i % len(cfgs)]
+        ops, sizes = syslevel.gen_history(rng, cfg, rng.randrange(*nops), **gen_kwargs)
+        rp = set()
+        if max_gen > 1:
+            for _ in range(rng.randrange(0, max_gen)):
+                rp.add(rng.randrange(1, max(2, len(ops))))
+        run = sysrun.execute(cfg, ops, sizes, rp, keep_iso=False)
+        kinds = set(op['k'] for op in ops)
+        ctx.case((cfg.key(), repr(ops), tuple(sorted(rp))), len(kinds) >= 3)
+        ctx.count('cfg:' + cfg.key().split('-')[0])
+        ctx.count('generations:%d' % (len(rp) + 1))
+        for op in ops:
+            ctx.count('op:' + op['k'])
+        for o in run.outs:
+            ctx.count('outcome:' + o.split(':')[0])
+        if i in (3, 4):
+            ctx.sample({'config': cfg.key(), 'reopen_before': sorted(rp), 'ops': ops[:12]})
+        if run.fail is not None:
+            kind, text, at = run.fail
+            ctx.count('fail:' + kind)
+            if nfail_shrunk < max_shrink:
+                nfail_shrunk += 1
+                mc, small, srp, want = sysrun.minimize(cfg, ops, sizes, rp)
+                sig = sysrun.signature(pid, mc, small, srp, want)
+                ctx.violation(sig, '%s: after this %s the image cannot be %s (%s); minimal: config %s, history %s'
+                              % (pid, label, {'write': 'written', 'reopen': 'opened by the library itself',
+                                              'view': 'listed/read through the API'}[kind], text, mc.key(),
+                                 sysrun.shape_with_reopen(small, srp)),
+                              {'config': mc.key(), 'ops': small, 'reopen_before': srp, 'failure': [kind, text],
+                               'original': {'config': cfg.key(), 'ops': ops, 'reopen_before': sorted(rp)}})
+            continue
+        if extra_oracle is not None:
+            extra_oracle(ctx, cfg, ops, sizes, rp, run)
+        cases.append(sysrun.render_case(cfg, ops, run.outs, run.view))
+        metas.append((cfg, ops, sizes, rp, run))
+    res, err = sysrun.coq_results(cases, pid + 'sys')
+    if res is None:
+        ctx.broken.append({'name': 'correspondence:FsSpec', 'summary': 'spec evaluation failed: ' + err})
+        return
+    nshr = 0
+    agree = 0
+    for code, (cfg, ops, sizes, rp, run) in zip(res, metas):
+        if code == 0:
+            agree += 1
+            continue
+        kind = sysrun.classify(code)
+        ctx.count('disagree:' + kind)
+        if nshr >= max_shrink:
+            continue
+        nshr += 1
+        mc, small, srp, want = sysrun.minimize(cfg, ops, sizes, rp)
+        if want is None or want[0] != kind:
+            # the Python mirror does not reproduce what Coq established: report unshrunk
+            mc, small, srp, want = cfg, ops, sorted(rp), (kind, 'unshrunk')
+        else:
+            r2 = sysrun.execute(mc, small, sizes, srp)
+            chk, _ = sysrun.coq_results([sysrun.render_case(mc, small, r2.outs, r2.view)], pid + 'cfm') if r2.fail is None else ([1], None)
+            if not chk or chk[0] == 0:
+                mc, small, srp, want = cfg, ops, sorted(rp), (kind, 'unshrunk')
+        sig = sysrun.signature(pid, mc, small, srp, want)
+        if kind == 'outcome':
+            op = small[-1]
+            ctx.violation(sig, '%s: edit %s (%s) has outcome %s on the implementation but the specification says %s; '
+                          'minimal: config %s, history %s'
+                          % (pid, op, op.get('why', 'expected valid'), want[2] if len(want) > 2 else '?',
+                             'refuse' if len(want) > 2 and want[2] == 'ok' else 'accept', mc.key(),
+                             sysrun.shape_with_reopen(small, srp)),
+                          {'config': mc.key(), 'ops': small, 'reopen_before': srp})
+        else:
+            r2 = sysrun.execute(mc, small, sizes, srp)
+            ctx.violation(sig, '%s: the reopened image does not show what the edits imply; minimal: config %s, history %s'
+                          % (pid, mc.key(), sysrun.shape_with_reopen(small, srp)),
+                          {'config': mc.key(), 'ops': small, 'reopen_before': srp,
+                           'api_view': sorted(map(repr, r2.view or [])), 'outcomes': r2.outs})
+    ctx.cov['traces_validated_against_impl'] += agree
+    ctx.cov['correspondences']['FsSpec.run vs PyCdlib edits + write + reopen + API view'] = {
+        'cases': len(cases), 'disagreements': len(cases) - agree}
 
 
 def run(ctx):
+    common.proof_stage(ctx, MODULE, THEOREMS, extra_targets=['theories/Spec/FsCases.vo'])
     common.setup_impl_path()
-    rng = ctx.rng
-    cfgs = syslevel.covering_configs(rng, 24)
-    cases = []
-    metas = []
-    for i in range(200):
-        cfg = cfgs[i % len(cfgs)]
-        ops, sizes = syslevel.gen_history(rng, cfg, rng.randrange(5, 30))
-        iso, outs = run_history(cfg, ops, sizes)
-        catalog_paths = set()
-        for op, o in zip(ops, outs):
-            if op['k'] == 'add_eltorito' and o == 'ok':
-                catalog_paths.add(op['catalog'])
-                if 'jol' in op:
-                    catalog_paths.add(op['jol'])
-        try:
-            img = syslevel.write_image(iso)
-            iso.close()
-            iso2 = syslevel.reopen(img)
-            view = syslevel.api_view(iso2, cfg, make_content_key(ops, sizes, catalog_paths))
-            iso2.close()
-        except Exception as e:
-            import traceback
-            print('WRITE/REOPEN FAILED', cfg.key(), repr(e))
-            traceback.print_exc(limit=3)
-            print(ops)
-            continue
-        names = syslevel.Names()
-        cases.append(render_case(cfg, ops, outs, view, names))
-        metas.append((cfg, ops, outs, view))
-    res, err = common.coq_map_cases('C01sys', ['From PV.Spec Require Import FsSpec FsCases.'], [], 'syscase', cases, 'results')
-    if res is None:
-        print(err)
-        return
-    from collections import Counter
-    print(Counter(res))
-    shown = 0
-    for r, (cfg, ops, outs, view) in zip(res, metas):
-        if r != 0 and shown < 6:
-            shown += 1
-            print('----', cfg.key(), r)
-            if r >= 1000:
-                i = r - 1000
-                print('  op', i, ops[i], '->', outs[i])
-            else:
-                for o, x in zip(ops, outs):
-                    print('   ', x, o)
-                for v in sorted(view, key=repr):
-                    print('   V', v)
+    n = 240 if ctx.tier == 'quick' else 3000
+    system_check(ctx, 'C01', n, dict(allow_refusals=False), nops=(5, 30) if ctx.tier == 'quick' else (10, 80))
+    ctx.cov['rule'] = ('edit histories of 5-30 accepted edits (add_fp/add_directory/rm_file/rm_directory/add_hard_link/'
+                       'rm_hard_link/symlinks/hidden/El Torito) over a pairwise-covering set of configurations; '
+                       'non-trivial = at least 3 different edit kinds; distinct by (configuration, history)')
+    ctx.cov['trusted_base'] = ['Coq 8.16.1 kernel, vm_compute (spec evaluation)',
+                               'Spec/FsSpec.v is the specification ("what the edits imply"); tied to pycdlib by this differential run',
+                               'harness/syslevel.py, harness/sysrun.py (generator, API view, canonicalisation)']
+    ctx.assumptions = ['ISO9660 paths at most 6 directories deep (relocation is C08)', 'Rock Ridge names in bijection with ISO names']
